@@ -176,7 +176,7 @@ PROPS.update({
     },
     "C14": {
         "level": "proof",
-        "text": "Kernel-checked: hasPath_spec (the function translated from has_path decides reachability in >= 1 step for every graph: the len() bound always suffices), graph_covers (every unanswered in-flight ask has its edge in every reachable state), closes_panics (self-ask or any chain of in-flight asks back to the asker => the ask panics with the cycle path, inserts no edge, for every cycle length and creation order), waits_otherwise, no_one_left_waiting, asks_to_dead_are_lost, path_starts_with_caller. The protocol steps (check+insert under one lock, all four hooks scoped) are extracted. Real side: random ask topologies (cycles of length 1-5, timeouts, panics, kills) replayed on the model: every model-predicted deadlock must be a real panic with the same cycle path; translation differential on 11,886 graph queries. Peers whose on_run fails reach on_stop through the error path (`runerr<k>`): cycles closed by asks made there are part of the generated histories and of the corpus. Stress scenario `cyclerace` (all-features build): two actors on two OS threads ask each other at the same instant behind a spin barrier, 1500 rounds: one of the two asks is always reported. Stress scenario `slowlog` (all-features build): three actors on three OS threads under a tracing subscriber that takes up to 50 ms for some of the crate's events; an ask whose deadline races its reply, then an ask that closes a cycle through the same asker: the closing ask always panics (60 rounds quick, 240 thorough).",
+        "text": "Kernel-checked: hasPath_spec (the function translated from has_path decides reachability in >= 1 step for every graph: the len() bound always suffices), graph_covers (every unanswered in-flight ask has its edge in every reachable state), closes_panics (self-ask or any chain of in-flight asks back to the asker => the ask panics with the cycle path, inserts no edge, for every cycle length and creation order), waits_otherwise, no_one_left_waiting, asks_to_dead_are_lost, late_reply_keeps_newer_edge (a reply that arrives after its asker gave up still calls clear_wait_for with the old token; in every reachable state that removes nothing, so the asker's newer edge stays visible), path_starts_with_caller. The protocol steps (check+insert under one lock, all four hooks scoped) are extracted. Real side: random ask topologies (cycles of length 1-5, timeouts, panics, kills) replayed on the model: every model-predicted deadlock must be a real panic with the same cycle path; translation differential on 11,886 graph queries. Peers whose on_run fails reach on_stop through the error path (`runerr<k>`): cycles closed by asks made there are part of the generated histories and of the corpus. Stress scenario `cyclerace` (all-features build): two actors on two OS threads ask each other at the same instant behind a spin barrier, 1500 rounds: one of the two asks is always reported. Stress scenario `slowlog` (all-features build): three actors on three OS threads under a tracing subscriber that takes up to 50 ms for some of the crate's events; an ask whose deadline races its reply, then an ask that closes a cycle through the same asker: the closing ask always panics (60 rounds quick, 240 thorough).",
         "note": PROOF_NOTE + " Asks awaited concurrently inside one hook are outside the property (sequential asks only).",
         "technique": "Lean 4 proof (pigeonhole bound for the translated graph walk; protocol invariant) + replay of real histories on the protocol model",
         "monitors": ["C03"],
